@@ -56,7 +56,7 @@ def floors(tier):
     return {"distinct_nontrivial": 500, "lookups": 20000, "retrieve.exact": 10000, "check.compared": 10000,
             "cls:full_binding_history": 50, "cls:partial_binding_history": 500, "cls:overwrite": 100, "cls:clear": 100,
             "cls:extra_nonkey_entries": 100, "cls:values_shared_between_keys": 500, "cls:falsy_and_repeated_outputs": 300,
-            "cls:raw_values_incl_None": 300}
+            "cls:raw_values_incl_None": 300, "cls:keys_and_bindings_spelled_in_reverse_order": 300}
 
 
 def _bindings(nkeys, alpha=2):
@@ -76,7 +76,7 @@ def cases(spec, ctx):
                 if i % spec["stride"] == spec["offset"]:
                     yield {"k": "exh", "nkeys": spec["nkeys"], "alpha": 2, "ops": [["ins", bs[j]] for j in seq], "lookups": "all",
                            "only_last": True, "shared_values": i % 2 == 1, "plain_outputs": i % 3 == 2,
-                           "raw_values": i % 5 == 4}
+                           "raw_values": i % 5 == 4, "unsorted_spelling": i % 4 == 3}
                 i += 1
         return
     for i in range(spec["n"]):
@@ -104,7 +104,7 @@ def cases(spec, ctx):
             lookups.append([l, rng.random() < 0.25])
         yield {"k": "rand", "nkeys": nkeys, "alpha": alpha, "ops": ops, "lookups": lookups, "only_last": False,
                "shared_values": rng.random() < 0.5, "plain_outputs": rng.random() < 0.4,
-               "raw_values": rng.random() < 0.15}
+               "raw_values": rng.random() < 0.15, "unsorted_spelling": rng.random() < 0.3}
 
 
 # ------------------------------------------------------------------------------------------------ models
@@ -190,7 +190,10 @@ def check_case(case, ctx):
     else:
         vals = {k: [HashedValue(("v", k, i)) for i in range(alpha)] for k in keys}
     extra = HashedValue("extra")
-    cache = IndexedCache(list(keys))
+    # the key list and the bindings are spelled in any order (dicts keep insertion order, the index must not depend on it)
+    cache = IndexedCache(list(reversed(keys)) if case.get("unsorted_spelling") else list(keys))
+    if case.get("unsorted_spelling"):
+        ctx.cls("cls:keys_and_bindings_spelled_in_reverse_order")
     model = []
     if case["lookups"] == "all":
         lookups = [[list(c), False] for c in itertools.product([None] + list(range(alpha)), repeat=nkeys)]
@@ -210,6 +213,8 @@ def check_case(case, ctx):
             ctx.cls("cls:clear")
         else:
             b = {k: vals[k][x] for k, x in zip(keys, op[1]) if x is not None}
+            if case.get("unsorted_spelling") and step % 2 == 0:
+                b = dict(reversed(list(b.items())))
             # the engine stores truth flags: outputs may be falsy and need not be unique
             out = [False, 0, True, "", None][step % 5] if case.get("plain_outputs") else f"out{step}"
             if any(mb == b for mb, _ in model):
@@ -220,6 +225,8 @@ def check_case(case, ctx):
             continue   # the prefixes are cases of their own in the exhaustive enumeration
         for lspec, with_extra in lookups:
             l = {k: vals[k][x] for k, x in zip(keys, lspec) if x is not None}
+            if case.get("unsorted_spelling"):
+                l = dict(reversed(list(l.items())))
             if with_extra:
                 l[99] = extra
                 ctx.cls("cls:extra_nonkey_entries")
